@@ -33,7 +33,10 @@ RULE = ("Each run is a seeded history: 1-3 SATManager clients (<=6 user variable
         "posts (clause, imply, pairwise AMO, chained AMO with k in 2..6 and group sizes 0..9, pseudo-Boolean "
         "inequalities built through the library's operator algebra from random expression trees with all five "
         "comparison operators and both ROBDD constructions, solve) are interleaved by the seeded scheduler; faults: "
-        "refuse (unencodable constraint), abort (encoding killed at a seeded line event). A run is non-trivial if "
+        "refuse (unencodable constraint), abort (encoding killed at a seeded line event). Rare large families: 'flood' "
+        "(a few managers, then unrelated encodings that take the process-wide diagram store to about 2^14..2^16 nodes, then "
+        "8-30 more small managers, every post checked as usual) and 'bigcnf' (430-470 variables, planted 3-literal clauses "
+        "at ratio 4.22-4.28: solve must report satisfiable and expose a model of every clause). A run is non-trivial if "
         ">=2 constraints were accepted; distinct = distinct BLAKE2 signature of the sequence of "
         "(client, operation kind, comparison operator, outcome, fault kind).")
 COMPONENTS = {
@@ -178,8 +181,66 @@ def _gen_post(r, nvars, pool, planted):
     return o
 
 
+def _gen_script(r, nvars, pool, n):
+    planted = tuple(r.below(2) for _ in range(nvars)) if r.chance(0.8) else None
+    ops = [_gen_post(r, nvars, pool, planted) for _ in range(n)]
+    if r.chance(0.7):
+        ops.append({"op": "solve"})
+    return ops
+
+
+def _interleave(r, scripts, first_id=0):
+    pos = [0] * len(scripts)
+    ops = []
+    live = [c for c in range(len(scripts)) if scripts[c]]
+    while live:
+        c = r.choice(live)
+        o = dict(scripts[c][pos[c]])
+        o["c"] = first_id + c
+        ops.append(o)
+        pos[c] += 1
+        if pos[c] >= len(scripts[c]):
+            live.remove(c)
+    return ops
+
+
+def _gen_flood_case(r):
+    """A long process history: a few managers, then unrelated encodings that take the process-wide diagram store to (about)
+    a power of two of nodes, then many more small managers over the same variable names.  Every post of every manager is
+    checked for exactness as usual; only the size of what was encoded before is unusual."""
+    nvars = r.randint(3, 6)
+    pool = []
+    early = [_gen_script(r, nvars, pool, r.randint(8, 16)) for _ in range(r.randint(2, 4))]
+    ops = _interleave(r, early, 0)
+    nid = len(early)
+    power = r.weighted([(16, 8), (15, 1), (14, 1)])
+    target = (1 << power) + r.weighted([(0, 4), (-r.randint(1, 40), 3), (r.randint(1, 400), 2), (r.randint(401, 6000), 1)])
+    ops.append({"op": "flood", "c": -1, "target": target})
+    for _ in range(r.randint(4, 9)):    # waves of 2-4 interleaved managers
+        wave = [_gen_script(r, nvars, pool, r.randint(5, 12)) for _ in range(r.randint(2, 4))]
+        ops += _interleave(r, wave, nid)
+        nid += len(wave)
+    return {"engine": "c07", "nvars": nvars, "nclients": nid, "ops": ops, "no_alone": True, "family": "flood",
+            "reuse": r.weighted([(None, 3), ("own", 3), ("shared", 4)])}
+
+
+def _gen_bigcnf_case(r):
+    """A large satisfiable clause set (planted assignment, 3-literal clauses at the hardness threshold): the only thing that
+    is unusual is the search effort solve() needs."""
+    n = r.randint(430, 470)
+    ops = [{"op": "bigcnf", "c": -2, "n": n, "m": int(r.choice([4.22, 4.25, 4.25, 4.28]) * n), "seed": r.randint(0, 1 << 30)}]
+    nvars = r.randint(2, 4)
+    ops += _interleave(r, [_gen_script(r, nvars, [], r.randint(2, 5))], 0)
+    return {"engine": "c07", "nvars": nvars, "nclients": 1, "ops": ops, "no_alone": True, "family": "bigcnf", "reuse": None}
+
+
 def gen_case(r, index, tier):
     deep = tier == "thorough"
+    fam = os.environ.get("VERIF_C07_FAMILY") or r.weighted([("ordinary", 0.993), ("flood", 0.004), ("bigcnf", 0.003)])
+    if fam == "flood":
+        return _gen_flood_case(r)
+    if fam == "bigcnf":
+        return _gen_bigcnf_case(r)
     nclients = r.weighted([(1, 2), (2, 4), (3, 4)] + ([(4, 2)] if deep else []))
     nvars = r.randint(2, 8 if deep else 6)
     pool = []
@@ -531,6 +592,25 @@ def _simulate(case, only_client=None, collect=None):
         c = o["c"]
         if only_client is not None and c != only_client:
             continue
+        if o["op"] == "flood":
+            n0 = len(_pb.memory)
+            _flood(o["target"])
+            probe("flood_nodes", len(_pb.memory) - n0)
+            if len(_pb.memory) >= 65536:
+                probe("store_holds_2^16_nodes_or_more")
+            ops_count["flood"] = ops_count.get("flood", 0) + 1
+            hist.append({"seq": seq, "c": c, "op": "flood", "out": "store %d" % len(_pb.memory)})
+            sig.append((c, "flood", "", "done", ""))
+            continue
+        if o["op"] == "bigcnf":
+            out, vv = _bigcnf(o, probe)
+            for x in vv:
+                viol.append({"property": "C07", "clause": x, "key": {"op": "bigcnf"},
+                             "detail": {"seq": seq, "n": o["n"], "m": o["m"], "seed": o["seed"]}})
+            ops_count["bigcnf"] = ops_count.get("bigcnf", 0) + 1
+            hist.append({"seq": seq, "c": c, "op": "bigcnf", "out": out})
+            sig.append((c, "bigcnf", "", out, ""))
+            continue
         if c not in clients:
             clients[c] = _Client(c, nvars)
             if case.get("reuse") == "shared":
@@ -669,6 +749,80 @@ def _simulate(case, only_client=None, collect=None):
             "canon": {c: per_post_canon.get(c, []) for c in clients},
             "dead": sorted(c for c, cl in clients.items() if cl.dead),
             "store_growth": len(_pb.memory) - store0}
+
+
+def _flood(target):
+    """Unrelated earlier encodings (own manager, own variable names) until the process-wide store holds `target` nodes:
+    'at least half of these 100' (about 2500 diagrams each), then 'all of these k' (k diagrams each)."""
+    m = _sat.SATManager()
+    E = _pb.Expr
+    j = 0
+
+    def total(prefix, k):
+        e = E()
+        for i in range(k):
+            e = e + m.newvar("%s%d_%d" % (prefix, j, i))
+        return e
+
+    while len(_pb.memory) + 3000 < target and j < 400:
+        m.pseudoboolencoding(total("f", 100) >= 50)
+        j += 1
+    while len(_pb.memory) < target and j < 4000:
+        left = target - len(_pb.memory)
+        k = min(left, 150)
+        if left - k == 1 and k > 1:
+            k -= 1
+        before = len(_pb.memory)
+        m.pseudoboolencoding(total("g", k) >= k)
+        j += 1
+        if len(_pb.memory) == before:
+            break
+
+
+BIG_CONFLICTS = 1200000
+
+
+def _bigcnf(o, probe):
+    """Posts a planted 3-literal clause set to a manager of its own and asks solve().  Instances the same solver cannot decide
+    within BIG_CONFLICTS conflicts are skipped (so that the run stays bounded), decided by an independent instance first."""
+    from sim import rng as rngmod
+    r = rngmod.Rng(rngmod.derive(o["seed"], "bigcnf"))
+    n, mcl = o["n"], o["m"]
+    planted = [r.below(2) for _ in range(n + 1)]
+    posted = []
+    while len(posted) < mcl:
+        vs = sorted({1 + r.below(n) for _ in range(3)})
+        if len(vs) < 3:
+            continue
+        c = [(v, bool(r.below(2))) for v in vs]
+        if any(pol == bool(planted[v]) for v, pol in c):
+            posted.append(c)
+    ind = _Solver()
+    for c in posted:
+        ind.add_clause([v if pol else -v for v, pol in c])
+    ind.conf_budget(BIG_CONFLICTS)
+    res0 = ind.solve_limited()
+    conflicts = ind.accum_stats().get("conflicts", 0)
+    ind.delete()
+    if res0 is None:
+        probe("bigcnf_skipped_too_hard")
+        return "skipped", []
+    probe("bigcnf_conflicts_over_100k" if conflicts > 100000 else "bigcnf_conflicts_up_to_100k")
+    sm = _sat.SATManager()
+    var = [None] + [sm.newvar("v%d" % i) for i in range(1, n + 1)]
+    for c in posted:
+        sm.add_clause([var[v] if pol else -var[v] for v, pol in c])
+    try:
+        res = sm.solve()
+    except BaseException as e:  # noqa
+        return "raised", ["solve raised on a large satisfiable clause set (%s)" % type(e).__name__]
+    if not res:
+        return "unsat", ["solve reports unsatisfiable although a planted assignment satisfies every posted clause"]
+    bad = [c for c in posted if not any(sm.value(var[v] if pol else -var[v]) == 1 for v, pol in c)]
+    if bad:
+        return "badmodel", ["exposed model violates a posted constraint"]
+    probe("bigcnf_solved")
+    return "sat", []
 
 
 def _alone_entry(arg):
